@@ -11,3 +11,5 @@ import J1939.Props.C01
 #print axioms J1939.Props.C01.c01_tp_dispatch
 #print axioms J1939.Props.C01.c01_rtscts_round
 #print axioms J1939.Props.C01.c01_rtscts_end_to_end
+#print axioms J1939.Props.C01.hash21_arith
+#print axioms J1939.Props.C01.c01_session_key_injective
